@@ -4,6 +4,7 @@ import (
 	"context"
 	"fmt"
 	"io"
+	"strings"
 	"testing"
 	"testing/synctest"
 	"time"
@@ -250,8 +251,90 @@ func TestC21(t *testing.T) {
 		s.Depth = 4
 		s.Stacks = []string{world.StackSQL, world.StackFS}
 	}
+	c21LeaseGrid(t, run)
 	s.Explore()
 	s.Coverage()
 	fmt.Printf("C21: states=%d transitions=%d depth=%v\n", s.States, s.Transitions, s.DepthDone)
 	finish(t, run)
+}
+
+// ---- lease / heartbeat part -------------------------------------------------------------------
+// Two outbox storages (same outbox id, same table, same inner storage) as two processes would be.
+// Worker A claims the head entry and its replay on the inner storage takes `slow`; worker B runs a
+// pass at every full second meanwhile. While A is alive (its heartbeat renews the lease) B must
+// never take A's entry over: after the drain the inner storage is the accepted writes in
+// acceptance order. Enumerated: lease x slowness grid.
+
+type c21SlowInner struct {
+	storage.Storage
+	slow  time.Duration
+	first bool
+}
+
+func (s *c21SlowInner) PutObject(ctx context.Context, b storage.BucketName, k storage.ObjectKey, ct *string, data io.Reader, ck *storage.ChecksumInput, o *storage.PutObjectOptions) (*storage.PutObjectResult, error) {
+	if !s.first {
+		s.first = true
+		time.Sleep(s.slow) // virtual time: the replay of the first put is slow
+	}
+	return s.Storage.PutObject(ctx, b, k, ct, data, ck, o)
+}
+
+func c21LeaseCase(t *testing.T, lease, slow time.Duration) (problem string) {
+	synctest.Test(t, func(t *testing.T) {
+		ctx := context.Background()
+		w := world.New(world.Config{Stack: world.StackSQL})
+		defer w.Destroy()
+		repo := mustV(repositoryfactory.NewStorageOutboxEntryRepository(w.DB))
+		a := mustV(outbox.NewStorage(w.DB, "sob", &c21SlowInner{Storage: w.Storage, slow: slow}, repo, prometheus.NewRegistry(), lease))
+		b := mustV(outbox.NewStorage(w.DB, "sob", w.Storage, repo, prometheus.NewRegistry(), lease))
+		bn, k := storage.MustNewBucketName("bka"), storage.MustNewObjectKey("k1")
+		must(w.Storage.CreateBucket(ctx, bn))
+		if _, err := a.PutObject(ctx, bn, k, nil, strings.NewReader("first"), nil, nil); err != nil {
+			problem = "harness: put: " + err.Error()
+			return
+		}
+		if _, err := a.DeleteObject(ctx, bn, k, nil); err != nil {
+			problem = "harness: delete: " + err.Error()
+			return
+		}
+		done := make(chan struct{})
+		go func() { defer close(done); outbox.ProcessOnce(ctx, a); outbox.ProcessOnce(ctx, a) }()
+		for i := 0; i < int(slow/time.Second)+2; i++ {
+			time.Sleep(time.Second)
+			outbox.ProcessOnce(ctx, b)
+		}
+		<-done
+		for i := 0; i < 5; i++ {
+			outbox.ProcessOnce(ctx, b)
+			time.Sleep(lease + time.Second)
+		}
+		if _, err := w.Storage.HeadObject(ctx, bn, k, nil); err == nil {
+			problem = fmt.Sprintf("lease %s, replay of the first entry takes %s: after the drain the key exists although put was followed by delete (a second worker took over an entry whose owner was alive, and the owner's late put landed last)", lease, slow)
+		} else if sx.ErrKind(err) != "NoSuchKey" {
+			problem = "harness: head: " + err.Error()
+		}
+	})
+	return
+}
+
+func c21LeaseGrid(t *testing.T, run *ev.Run) {
+	cases := 0
+	for _, lease := range []time.Duration{2 * time.Second, 3 * time.Second, 4 * time.Second, 5 * time.Second, 9 * time.Second, 30 * time.Second} {
+		for _, f := range []float64{0.5, 1.5, 2.5} {
+			if run.Expired() {
+				run.Exhaustive = false
+				return
+			}
+			slow := time.Duration(float64(lease) * f)
+			cases++
+			if p := c21LeaseCase(t, lease, slow); p != "" {
+				cls := "takeover-of-a-live-owner"
+				if strings.HasPrefix(p, "harness:") {
+					cls = "harness-error"
+				}
+				run.Report(ev.Violation{Class: cls, Summary: p, Replay: map[string]any{"lease_s": lease.Seconds(), "slow_s": slow.Seconds()}})
+			}
+		}
+	}
+	run.Cov["lease_heartbeat_cases"] = cases
 }
